@@ -63,6 +63,7 @@ func (c *tcpClient) writeLoop(conn net.Conn, peerClosed <-chan struct{}) (retErr
 		if pending != nil {
 			c.seq.Lock()
 			head, ok := c.drops.peekFirst()
+			vtrace("w.peek", expectedWireID, pending.id, 0)
 			c.seq.Unlock()
 			if ok && eventIDSeq(head.firstID) == expectedWireID {
 				continue
@@ -85,6 +86,7 @@ func (c *tcpClient) writeLoop(conn net.Conn, peerClosed <-chan struct{}) (retErr
 			default:
 				c.seq.Lock()
 				_, hasDrop := c.drops.peekFirst()
+				vtrace("w.peekc", expectedWireID, 0, 0)
 				c.seq.Unlock()
 				if !hasDrop {
 					return nil
@@ -121,10 +123,12 @@ func (c *tcpClient) flushReadyDrops(w io.Writer, expectedWireID *uint64) (int, e
 		c.seq.Lock()
 		head, ok := c.drops.peekFirst()
 		if !ok || eventIDSeq(head.firstID) != *expectedWireID {
+			vtrace("w.flush0", *expectedWireID, 0, 0)
 			c.seq.Unlock()
 			return flushed, nil
 		}
 		c.drops.popFirst() // claim before write
+		vtrace("w.pop", *expectedWireID, head.firstID, head.count)
 		c.seq.Unlock()
 		if err := c.writeDropped(w, head); err != nil {
 			return flushed, err
